@@ -108,8 +108,21 @@ pub fn gen_req(r: &mut Rng, nonce: u64, versioned: bool) -> ErrReq {
                 _ => (!in_error, status, Some(external.clone()), if custom { None } else { Some(code.clone()) }),
             };
             let target = if custom { "/cerr" } else { "/err" };
+            // On a versioned server some of these errors come from the
+            // application's own version policy instead of a handler: the
+            // script travels in a header and the request never reaches /ok.
+            let via_policy = versioned && !custom && !refused && r.chance(1, 3);
+            let bytes = if via_policy {
+                let hex: String = body.iter().map(|b| format!("{b:02x}")).collect();
+                let mut b = h1("GET", "/ok", nonce, steps, step_ms, None, versioned);
+                let at = b.windows(2).position(|w| w == b"\r\n").unwrap();
+                b.splice(at..at, format!("\r\nx-ver-script: {hex}").into_bytes());
+                b
+            } else {
+                h1("POST", target, nonce, steps, step_ms, Some(&body), versioned)
+            };
             ErrReq {
-                bytes: h1("POST", target, nonce, steps, step_ms, Some(&body), versioned),
+                bytes,
                 h2: None,
                 plan: ReqPlan {
                     nonce,
@@ -122,7 +135,7 @@ pub fn gen_req(r: &mut Rng, nonce: u64, versioned: bool) -> ErrReq {
                         headers: if refused { vec![] } else { headers },
                         secret,
                         custom,
-                        ctor: ctor.to_string(),
+                        ctor: if via_policy { format!("{ctor} via version policy") } else { ctor.to_string() },
                     },
                 },
             }
@@ -302,7 +315,8 @@ pub fn gen_random(seed: u64, idx: u64, tier: Tier) -> Plan {
             let mut e = gen_req(&mut r, nonce, versioned);
             // On a versioned server, occasionally omit the version header:
             // the framework itself must refuse with a 400.
-            if versioned && r.chance(1, 8) {
+            let scripted_policy = e.bytes.windows(13).any(|w| w == b"x-ver-script:");
+            if versioned && r.chance(1, 8) && !scripted_policy {
                 // (byte-wise: request bytes need not be text)
                 let needle = b"x-api-version: 1.0.0\r\n";
                 if let Some(at) = e.bytes.windows(needle.len()).position(|w| w == needle) {
